@@ -367,3 +367,209 @@ Proof.
   - exfalso. apply Rep_nil_map in R. subst. unfold guard_limit_order_go in G. cbn [filter map length] in G.
     destruct (0 <? N.to_nat limit); simpl in G; discriminate.
 Qed.
+
+(* ====================================================================================
+   Round 4: counts inside the order guard, and the corner where the trimmed prefix and the
+   order guard meet.
+   ==================================================================================== *)
+Definition dnl_posP (t : tnode) : Prop := forall limit, (0 < limit)%N -> (0 < snd (delete_nodes_limit t limit))%N.
+
+Lemma dnl_loop_lower pk ov : forall rest done limit vd,
+  Forall (opt_all dnl_posP) rest -> (0 < limit)%N ->
+  (vd <= snd (dnl_loop pk ov done rest limit vd))%N /\
+  ((exists c, In (Some c) rest) -> (vd < snd (dnl_loop pk ov done rest limit vd))%N).
+Proof.
+  induction rest as [|oc r IH]; intros done limit vd FP L0.
+  - cbn [dnl_loop snd]. split; [destruct ov; simpl; lia|]. intros (c & []).
+  - inversion FP as [|? ? P1 P2]; subst. destruct oc as [c|]; cbn [dnl_loop].
+    + simpl in P1. specialize (P1 limit L0). destruct (delete_nodes_limit c limit) as [nc nd]. cbn [snd] in P1. cbv zeta.
+      destruct ((count_children (done ++ nc :: r) =? 0) && is_none ov); [cbn [snd]; split; [lia|intros _; lia]|].
+      destruct (N.eqb_spec (limit - nd) 0) as [Z|Z]; [cbn [snd]; split; [lia|intros _; lia]|].
+      destruct (IH (done ++ [nc]) (limit - nd)%N (vd + nd)%N P2) as [A _]; [lia|]. split; [lia|intros _; lia].
+    + destruct (IH (done ++ [None]) limit vd P2 L0) as [A B]. split; auto.
+      intros (c & [E|H]); [discriminate|]. apply B. eauto.
+Qed.
+
+Theorem dnl_pos t : Canon t -> dnl_posP t.
+Proof.
+  induction t as [pk lv|pk ov cs IH] using tnode_ind'; intros C limit L0.
+  - rewrite delete_nodes_limit_leaf. destruct (N.eqb_spec limit 0); [lia|]. simpl. lia.
+  - rewrite delete_nodes_limit_branch. destruct (N.eqb_spec limit 0); [lia|].
+    apply Canon_branch_inv in C as (Hpk & L & F & C1 & C2).
+    assert (FP : Forall (opt_all dnl_posP) cs).
+    { rewrite Forall_forall in *. intros [c|] Hc; simpl; auto. apply (IH _ Hc). apply (F _ Hc). }
+    destruct (dnl_loop_lower pk ov cs [] limit 0%N FP L0) as [_ B]. apply B.
+    destruct (first_child_exists cs C1) as (i & c & E). apply first_child_spec in E as (_ & A & _).
+    exists c. rewrite <- A. unfold child_at. apply nth_In. apply child_at_lt in A. lia.
+Qed.
+
+(* inside the order guard clearPrefixLimit deletes something, and either uses the limit up or leaves no
+   entry with the prefix *)
+Definition cpl_cntP (t : tnode) : Prop :=
+  forall p limit, nibbles_ok p -> 0 < limit -> order_guard (map fst (matching p t)) limit = true ->
+    let r := clear_prefix_limit_node t p (N.of_nat limit) in
+    (0 < snd (fst r))%N /\
+    (N.to_nat (snd (fst r)) = limit \/ forall e, In e (entries (fst (fst r))) -> has_prefix p e = false).
+
+Theorem cpl_cnt t : Canon t -> cpl_cntP t.
+Proof.
+  induction t as [pk lv|pk ov cs IH] using tnode_ind'; intros C p limit Hp L1 G; cbv zeta.
+  - exfalso. unfold order_guard in G. apply andb_true_iff in G as [G1 _]. apply Nat.ltb_lt in G1.
+    rewrite map_length in G1. unfold matching, E in G1. cbn [entries_node filter] in G1.
+    destruct (has_prefix p ([] ++ pk, lv)); cbn [length] in G1; lia.
+  - pose proof C as C0. apply Canon_branch_inv in C as (Hpk & L & F & C1 & C2).
+    pose proof (order_guard_nonempty _ _ G) as NE.
+    assert (NE' : filter (has_prefix p) (E (Branch pk ov cs)) <> []).
+    { intros X. apply NE. unfold matching. now rewrite X. }
+    assert (LN : (0 < N.of_nat limit)%N) by lia.
+    rewrite clear_prefix_limit_branch.
+    destruct (is_prefix p pk) eqn:P1.
+    + cbn [fst snd]. split; [apply (dnl_pos _ C0 _ LN)|].
+      destruct (dnl_gen_all _ C0 (N.of_nat limit) LN) as (_ & N2 & _).
+      destruct (fst (delete_nodes_limit (Branch pk ov cs) (N.of_nat limit))) as [x|].
+      * left. rewrite N2 by discriminate. lia.
+      * right. intros e [].
+    + destruct (prefix_is_child pk p) eqn:P2.
+      * apply prefix_is_child_spec in P2 as [ci ->]. cbv zeta. rewrite nth_app_mid.
+        apply nibbles_ok_app in Hp as [_ Hci]. apply nibbles_ok_cons in Hci as [Hci _].
+        assert (EM := matching_block pk ov cs ci []).
+        destruct (child_at cs ci) as [c|] eqn:Ec.
+        -- pose proof (Forall_child_at _ _ _ _ F Ec) as Cc.
+           pose proof (dnl_pos c Cc _ LN) as Pc.
+           destruct (dnl_gen_all c Cc (N.of_nat limit) LN) as (_ & N2 & Cn & _ & _).
+           destruct (N.eqb_spec (snd (delete_nodes_limit c (N.of_nat limit))) 0) as [Z|Z]; [lia|].
+           cbn [fst snd]. split; [exact Pc|].
+           destruct (fst (delete_nodes_limit c (N.of_nat limit))) as [x|] eqn:Enc.
+           ++ left. rewrite N2 by discriminate. lia.
+           ++ right.
+              destruct (handle_deletion_spec pk ov (set_child cs ci None) (pk ++ [ci]) Hpk) as [Hc Hl].
+              { now rewrite set_child_length. }
+              { apply Forall_set_child; auto. }
+              { now apply occupants_set_child_ge. }
+              { apply is_prefix_app. }
+              cbn [entries]. fold (E (handle_deletion pk ov (set_child cs ci None) (pk ++ [ci]))).
+              rewrite (entries_lookup_ext _ _ Hl), E_branch_block by lia. cbn [entries shift map app].
+              intros e He. apply in_app_or in He as [He|He].
+              ** exact (before_block_nomatch pk ov cs ci [] e He).
+              ** exact (after_block_nomatch pk cs ci [] e He).
+        -- exfalso. rewrite EM in NE. cbn [entries filter shift map] in NE. congruence.
+      * destruct (no_prefix_for_node pk p) eqn:P3.
+        -- exfalso.
+           assert (NoM : forall x, In x (E (Branch pk ov cs)) -> has_prefix p x = false).
+           { intros [k v] H. unfold E in H. apply in_entries_node in H as (k' & -> & Hl). cbn [app] in *.
+             unfold has_prefix. cbn [fst]. destruct (is_prefix p k') eqn:Q1; auto. exfalso.
+             pose proof (lookup_some_prefix _ _ _ Hl) as Q2. cbn [node_pk] in Q2.
+             unfold no_prefix_for_node in P3. apply orb_true_iff in P3 as [P3|P3].
+             - apply Nat.leb_le in P3. rewrite (is_prefix_comparable p pk k' Q1 Q2 P3) in P1. discriminate.
+             - apply Nat.ltb_lt in P3. destruct (Nat.le_ge_cases (length p) (length pk)) as [Lp|Lp].
+               + rewrite (is_prefix_comparable p pk k' Q1 Q2 Lp) in P1. discriminate.
+               + pose proof (is_prefix_comparable pk p k' Q2 Q1 Lp) as X. apply cpl_prefix_l in X. lia. }
+           apply NE'. apply filter_none. exact NoM.
+        -- unfold no_prefix_for_node in P3. apply orb_false_iff in P3 as [P3 P4].
+           apply Nat.leb_gt in P3. apply Nat.ltb_ge in P4.
+           assert (Pp : is_prefix pk p = true).
+           { apply cpl_prefix_l. pose proof (cpl_le_l pk p). lia. }
+           cbv zeta. set (ci := nth (length pk) p 0).
+           replace (length pk + 1) with (S (length pk)) by lia. set (cp := skipn (S (length pk)) p).
+           assert (Ep : p = pk ++ ci :: cp) by (apply is_prefix_split; auto).
+           assert (Hcp : nibbles_ok cp /\ ci < 16).
+           { rewrite Ep in Hp. apply nibbles_ok_app in Hp as [_ Hp]. apply nibbles_ok_cons in Hp. tauto. }
+           destruct Hcp as [Hcp Hci].
+           assert (EM := matching_block pk ov cs ci cp). rewrite <- Ep in EM.
+           destruct (child_at cs ci) as [c|] eqn:Ec.
+           ++ pose proof (Forall_child_at _ _ _ _ F Ec) as Cc.
+              cbn [entries] in EM. fold (E c) in EM. fold (matching cp c) in EM.
+              assert (Gc : order_guard (map fst (matching cp c)) limit = true).
+              { rewrite EM, map_fst_shift, order_guard_map_app in G. exact G. }
+              destruct (Forall_child_at _ _ _ _ IH Ec Cc cp limit Hcp L1 Gc) as (Pc & Fc).
+              destruct (cpl_differs c Cc cp limit Hcp L1 Gc) as (Cn & _ & _).
+              destruct (N.eqb_spec (snd (fst (clear_prefix_limit_node c cp (N.of_nat limit)))) 0) as [Z|Z]; [lia|].
+              set (nc := fst (fst (clear_prefix_limit_node c cp (N.of_nat limit)))) in *.
+              cbn [fst snd]. split; [exact Pc|].
+              destruct Fc as [Fc|Fc]; [left; exact Fc|right].
+              destruct (handle_deletion_spec pk ov (set_child cs ci nc) p Hpk) as [Hc Hl].
+              { now rewrite set_child_length. }
+              { apply Forall_set_child; auto. }
+              { now apply occupants_set_child_ge. }
+              { exact Pp. }
+              cbn [entries]. fold (E (handle_deletion pk ov (set_child cs ci nc) p)).
+              rewrite (entries_lookup_ext _ _ Hl), E_branch_block by lia.
+              intros e He. rewrite Ep. apply in_app_or in He as [He|He]; [exact (before_block_nomatch pk ov cs ci cp e He)|].
+              apply in_app_or in He as [He|He]; [|exact (after_block_nomatch pk cs ci cp e He)].
+              destruct e as [k v]. apply in_shift in He as (k0 & -> & He).
+              pose proof (has_prefix_shift_block pk ci cp (k0, v)) as X. cbn [fst snd] in X. exact (eq_trans X (Fc (k0, v) He)).
+           ++ exfalso. rewrite EM in NE. cbn [entries filter shift map] in NE. congruence.
+Qed.
+
+(* ---------- byte keys have an even number of nibbles ---------- *)
+Lemma trim_zero_suffix_cases k : trim_zero_suffix k = k \/ k = trim_zero_suffix k ++ [0].
+Proof.
+  induction k as [|x k IH]; [left; reflexivity|]. destruct k as [|y k].
+  - simpl. destruct (Nat.eqb_spec x 0) as [->|]; [right; reflexivity|left; reflexivity].
+  - change (trim_zero_suffix (x :: y :: k)) with (x :: trim_zero_suffix (y :: k)).
+    destruct IH as [->|E]; [left; reflexivity|right]. cbn [app]. now rewrite <- E.
+Qed.
+
+(* a key that matches the trimmed prefix only is greater than every key with the byte prefix *)
+Lemma trimmed_only_greater p ke ky :
+  go_prefix p ke = true -> bytes_prefix p ke = false -> bytes_prefix p ky = true -> bytes_lt ky ke.
+Proof.
+  unfold go_prefix. rewrite !bytes_prefix_nibbles. intros G B Y.
+  destruct (trim_zero_suffix_cases (key_le_to_nibbles p)) as [E|E]; [rewrite E in G; congruence|].
+  set (pn := trim_zero_suffix (key_le_to_nibbles p)) in *.
+  rewrite E in B, Y. apply is_prefix_spec in Y as (ry & Ey). apply is_prefix_spec in G as (re & Ee).
+  rewrite <- app_assoc in Ey. cbn [app] in Ey.
+  assert (Lp := key_le_to_nibbles_length p). rewrite E, app_length in Lp. cbn [length] in Lp.
+  assert (Le := key_le_to_nibbles_length ke). rewrite Ee, app_length in Le.
+  destruct re as [|x re]; [cbn [length] in Le; lia|].
+  destruct (Nat.eq_dec x 0) as [->|Nx].
+  { exfalso. rewrite Ee in B. rewrite is_prefix_app_inv in B. discriminate. }
+  unfold bytes_lt. rewrite bytes_compare_nibbles, Ey, Ee. apply key_compare_diverge. lia.
+Qed.
+
+(* hence, in a sorted map, an element among the first l matched keys that lacks the byte prefix has
+   all keys with the byte prefix before it: there are fewer than l of them *)
+Lemma byte_prefix_initial_segment p : forall m l x, bm_sorted m = true ->
+  In x (firstn l (filter (gmatch p) m)) -> bmatch_b p x = false -> length (filter (bmatch_b p) m) < l.
+Proof.
+  induction m as [|e r IH]; intros l x S Hx Bx; [destruct l; contradiction|].
+  destruct e as [ke ve]. pose proof (bm_sorted_tail _ _ _ S) as S2.
+  cbn [filter] in *. destruct (gmatch p (ke, ve)) eqn:Ge.
+  - destruct (bmatch_b p (ke, ve)) eqn:Be.
+    + destruct l as [|l']; [contradiction|]. cbn [firstn] in Hx. destruct Hx as [<-|Hx]; [congruence|].
+      cbn [length]. specialize (IH l' x S2 Hx Bx). lia.
+    + assert (Z : filter (bmatch_b p) r = []).
+      { apply filter_none. intros [ky vy] Hy. destruct (bmatch_b p (ky, vy)) eqn:By; auto. exfalso.
+        pose proof (bm_sorted_head ke ve r S ky) as Lt1.
+        assert (In ky (bm_keys r)) by (apply in_map_iff; exists (ky, vy); auto). specialize (Lt1 H).
+        pose proof (trimmed_only_greater p ke ky Ge Be By) as Lt2.
+        exact (bytes_lt_irrefl _ (bytes_lt_trans _ _ _ Lt1 Lt2)). }
+      rewrite Z. destruct l; [contradiction|]. cbn [length]. lia.
+  - assert (Be : bmatch_b p (ke, ve) = false).
+    { destruct (bmatch_b p (ke, ve)) eqn:Be; auto. rewrite (bmatch_gmatch p _ Be) in Ge. discriminate. }
+    rewrite Be. exact (IH l x S2 Hx Bx).
+Qed.
+
+(* ClearPrefixLimit inside the order guard: something is deleted, and either the limit is used up or no
+   key matching the (trimmed) prefix is left *)
+Theorem order_guard_count t m p limit : Rep t m -> limit <> 0%N -> guard_limit_order_go m p limit = true ->
+  let r := trie_clear_prefix_limit t p limit in
+  snd (fst r) = limit \/ forall e, In e (entries (fst (fst r))) -> has_prefix (pn_of p) e = false.
+Proof.
+  intros R Z G. cbv zeta. unfold trie_clear_prefix_limit, trie_clear_prefix_limit_pinned.
+  destruct (N.eqb_spec limit 0) as [->|_]; [congruence|].
+  set (l := N.to_nat limit). assert (L1 : 0 < l) by (unfold l; lia).
+  destruct t as [n|].
+  - destruct R as [C E0]. simpl in E0.
+    assert (Agree : forall e, In e m -> has_prefix (pn_of p) (key_le_to_nibbles (fst e), snd e) = gmatch p e).
+    { intros e _. reflexivity. }
+    assert (EM : matching (pn_of p) n = kv_of_bmap (filter (gmatch p) m)).
+    { unfold matching, E. rewrite E0. symmetry. apply kv_of_bmap_filter. exact Agree. }
+    assert (Gn : order_guard (map fst (matching (pn_of p) n)) l = true).
+    { rewrite EM, map_fst_kv_of_bmap. rewrite order_guard_bytes by exact L1. exact G. }
+    destruct (cpl_cnt n C (pn_of p) l (pn_of_ok p) L1 Gn) as (_ & F1).
+    replace (N.of_nat l) with limit in * by (unfold l; lia).
+    fold (pn_of p). destruct F1 as [F1|F1]; [left; apply N2Nat.inj; exact F1|right; exact F1].
+  - exfalso. apply Rep_nil_map in R. subst. unfold guard_limit_order_go in G. cbn [filter map length] in G.
+    destruct (0 <? N.to_nat limit); simpl in G; discriminate.
+Qed.
